@@ -32,6 +32,7 @@ type leakRes struct {
 	Name string `json:"name"`
 	Kind string `json:"kind"` // file | environment | content | external
 	Var  string `json:"var,omitempty"`
+	Inc  bool   `json:"inc,omitempty"` // declared in the included file: resolved with the include's own environment first
 }
 
 type leakArgs struct {
@@ -39,6 +40,9 @@ type leakArgs struct {
 	ConfigFiles    []string                   `json:"config_files"` // compose files given to the loader, in order
 	Env            map[string]string          `json:"env"`
 	Cores          map[string]string          `json:"cores"` // variable → alphanumeric core of its value
+	RawFiles       map[string]string          `json:"raw_files,omitempty"` // files written as they are (env files of an include)
+	IncEnv         map[string]string          `json:"inc_env,omitempty"`   // what the include's env file (env_file: or .env of its project directory) defines
+	IncCores       map[string]string          `json:"inc_cores,omitempty"` // variable → core of its value in the include's env file
 	PName          string                     `json:"pname"`
 	Secrets        []leakRes                  `json:"secrets"`
 	Configs        []leakRes                  `json:"configs"`
@@ -259,6 +263,9 @@ func realLeak(raw json.RawMessage) any {
 		}
 		files[n] = string(text)
 	}
+	for n, t := range a.RawFiles {
+		files[n] = t
+	}
 	req := core.LoadReq{Files: files, ConfigFiles: a.ConfigFiles, Env: a.Env, ProjectName: a.PName,
 		SkipValidation: a.SkipValidation, SkipConsistencyCheck: a.SkipConsistency}
 	p, root, err := req.Load()
@@ -276,14 +283,28 @@ func realLeak(raw json.RawMessage) any {
 		fails = append(fails, leakFail{key, fmt.Sprintf(format, args...)})
 	}
 
+	// the value a resource is resolved with: the loader's environment first; a resource declared in an included
+	// file falls back on what the include's own env file defines (include.go: environment.Clone().Merge(envFromFile),
+	// and the second resolution by the including model keeps a value it cannot resolve itself)
+	effective := func(r leakRes) (val string, set bool, scope string) {
+		if v, ok := a.Env[r.Var]; ok {
+			return v, true, "top"
+		}
+		if r.Inc {
+			if v, ok := a.IncEnv[r.Var]; ok {
+				return v, true, "inc"
+			}
+		}
+		return "", false, ""
+	}
 	// what was generated, by variable
 	kindOfVar := map[string]string{} // var → secret | config
-	nSecretsOfVar := map[string]int{}
+	nSecretsOfVar := map[string]int{} // scope:var → number of secrets carrying that value
 	for _, s := range a.Secrets {
 		if s.Kind == "environment" {
 			kindOfVar[s.Var] = "secret"
-			if _, set := a.Env[s.Var]; set {
-				nSecretsOfVar[s.Var]++
+			if _, set, scope := effective(s); set {
+				nSecretsOfVar[scope+":"+s.Var]++
 			}
 		}
 	}
@@ -294,11 +315,20 @@ func realLeak(raw json.RawMessage) any {
 			}
 		}
 	}
-	vars := make([]string, 0, len(a.Cores))
-	for v := range a.Cores {
-		vars = append(vars, v)
+	type canaryUse struct{ v, scope, core, val string }
+	var uses []canaryUse
+	for v, c := range a.Cores {
+		uses = append(uses, canaryUse{v, "top", c, a.Env[v]})
 	}
-	sort.Strings(vars)
+	for v, c := range a.IncCores {
+		uses = append(uses, canaryUse{v, "inc", c, a.IncEnv[v]})
+	}
+	sort.Slice(uses, func(i, j int) bool {
+		if uses[i].scope != uses[j].scope {
+			return uses[i].scope > uses[j].scope
+		}
+		return uses[i].v < uses[j].v
+	})
 	suffix := func(v string) string {
 		if v == "" {
 			return ":empty-variable-name"
@@ -318,14 +348,18 @@ func realLeak(raw json.RawMessage) any {
 			if s.Kind != "environment" {
 				continue
 			}
-			want, set := a.Env[s.Var]
+			want, set, scope := effective(s)
 			got, ok := p.Secrets[s.Name]
 			if !ok {
 				add("secret-missing", "secret %q is not on the loaded project", s.Name)
 			} else if s.Var == "" && got.Content != "" {
 				add("secret-value-invented:empty-variable-name", "Secrets[%q].Content = %q although its source variable is the empty name", s.Name, got.Content)
 			} else if s.Var != "" && set && got.Content != want {
-				add("secret-value-unavailable", "Secrets[%q].Content = %q, environment[%q] = %q", s.Name, got.Content, s.Var, want)
+				key := "secret-value-unavailable"
+				if scope == "inc" {
+					key += ":included"
+				}
+				add(key, "Secrets[%q].Content = %q, environment[%q] = %q (%s)", s.Name, got.Content, s.Var, want, scope)
 			} else if !set && got.Content != "" {
 				add("secret-value-invented", "Secrets[%q].Content = %q but %q is unset", s.Name, got.Content, s.Var)
 			}
@@ -337,6 +371,8 @@ func realLeak(raw json.RawMessage) any {
 			if c.Kind != "environment" {
 				continue
 			}
+			// a config of an included file is resolved by the including model only (loadYamlModel leaves the configs
+			// of an included model as written since repo a87ef4e): the include's env file does not reach it
 			want, set := a.Env[c.Var]
 			got, ok := p.Configs[c.Name]
 			if !ok {
@@ -359,14 +395,14 @@ func realLeak(raw json.RawMessage) any {
 		}
 		for _, r := range rs {
 			text := string(r.bytes)
-			for _, v := range vars {
-				core_, val := a.Cores[v], a.Env[v]
+			for _, u := range uses {
+				v, core_, val := u.v, u.core, u.val
 				n := strings.Count(text, core_)
 				inTree := val != "" && treeHas(r.tree, val)
 				kind := kindOf(v)
 				allowed := 0
 				if r.content && kind == "secret" {
-					allowed = nSecretsOfVar[v]
+					allowed = nSecretsOfVar[u.scope+":"+v]
 				}
 				if !r.content || kind != "secret" {
 					if n > 0 || inTree {
@@ -381,7 +417,8 @@ func realLeak(raw json.RawMessage) any {
 			if r.parseErr != nil {
 				lossy := false
 				for _, s := range a.Secrets {
-					lossy = lossy || (s.Kind == "environment" && yamlV3Loses(a.Env[s.Var]))
+					val, _, _ := effective(s)
+					lossy = lossy || (s.Kind == "environment" && yamlV3Loses(val))
 				}
 				if r.content && r.name == "yaml" && lossy {
 					add("content-inexact:yaml:yaml.v3-multiline-roundtrip", "the yaml rendering with content does not parse: %v", r.parseErr)
@@ -398,7 +435,7 @@ func realLeak(raw json.RawMessage) any {
 				if s.Kind != "environment" {
 					continue
 				}
-				want, set := a.Env[s.Var]
+				want, set, _ := effective(s)
 				got, has := lookupPath(r.tree, "secrets", s.Name, "content")
 				switch {
 				case r.content && set && want != "" && !has:
@@ -591,6 +628,7 @@ func registerC20Oracle() {
 				Bad   string `json:"bad"`
 				Err   string `json:"err"`
 				Class string `json:"class"`
+				Text  string `json:"text"`
 				Ok    *struct {
 					Fails []leakFail `json:"fails"`
 				} `json:"ok"`
@@ -602,7 +640,9 @@ func registerC20Oracle() {
 				return core.Disagree("harness: " + o.Bad)
 			}
 			if o.Err != "" {
-				if os.Getenv("C20_DEBUG") != "" { return core.Disagree("rejected " + o.Class) }
+				if os.Getenv("C20_DEBUG") != "" && !bytes.Contains(args, []byte(`"malformed":true`)) {
+					return core.Disagree("rejected " + o.Class + ": " + o.Text)
+				}
 				return core.Skip("rejected by the loader: " + o.Class)
 			}
 			if o.Ok == nil {
